@@ -18,10 +18,11 @@ single-value choice, float and bool categories (mixed types, and duplicates in n
 rejected by the library).
 
 Transfer learning in the fresh-process face: a ``vt_transfer`` batch runs RUSHScheduler (stopping / promotion, no
-custom_rush_points, 2-4 source tasks x 1-3 best configurations = 2-12 threshold candidates, spaces with string-valued
+or with 1-3 custom_rush_points, 2-4 source tasks x 1-3 best configurations = 2-12 threshold candidates, spaces with string-valued
 and numeric hyperparameters) and BoundingBox (around a seeded FIFO / Hyperband scheduler) under PYTHONHASHSEED 0 / 1 /
 random; the order of the first suggested configurations (the threshold candidates) is part of the compared trace.
-RUSH with custom_rush_points only through explicit reproducer specs (candidate C11-K3: hash-order dependent today).
+About half of the RUSH histories pass 1-3 custom_rush_points, one of them possibly equal to a source task's best
+configuration (C11-K3, fixed in 8e90818: the de-duplication used to order them by hash).
 ZeroShotTransfer and the quantile-based searcher need xgboost and cannot be imported here.
 
 Engine S (in process, shared argument objects): direct RandomSearcher / GridSearcher instances (behind a small
@@ -237,6 +238,9 @@ def floors(tier):
         f["fresh_process_hash_twins:" + kind] = m * kb
     f["fresh_process_rush_twins_with_2+_candidates_string_and_numeric_hps"] = 20 * kb
     f["fresh_process_rush_twins_threshold_candidates"] = 60 * kb
+    for nc, m in ((0, 8), (1, 2), (2, 3), (3, 2)):
+        f[f"fresh_process_rush_twins_custom_rush_points:{nc}"] = m * kb
+    f["fresh_process_rush_twins_custom_point_duplicates_source_best"] = 3 * kb
     f["fresh_process_grid_twins_with_duplicated_string_categories:shuffle_true"] = 3 * kb
     f["fresh_process_grid_twins_with_duplicated_string_categories:shuffle_false"] = 3 * kb
     kn = 1 if tier == "quick" else 10
@@ -705,7 +709,10 @@ def expand_tl(spec):
     p["num_hp_per_task"] = spec.get("num_hp_per_task") or rng.choice([1, 1, 2, 3])
     p["tl_seed"] = rng.randrange(2 ** 31 - 1)
     p["n_points"] = 0 if bbox else rng.choice([0, 0, 2])
-    p["custom_rush_points"] = 0  # > 0 only in explicit reproducer specs (candidate finding C11-K3)
+    # custom_rush_points: 0-3 extra threshold candidates (about half of the RUSH histories have some), one of them
+    # possibly equal to the best configuration of a source task (so that the de-duplication has something to remove)
+    p["custom_rush_points"] = rng.choice([0, 0, 0, 1, 2, 3]) if kind.startswith("tl_rush") else 0
+    p["custom_dup"] = rng.random() < 0.5
     p["max_events"] = rng.randint(110, 160)  # long enough that every threshold candidate (first trials) is suggested
     p["n_workers"] = max(p["n_workers"], 3)
     p["max_trials"] = max(p.get("max_trials", 0), 30)
@@ -746,7 +753,12 @@ def build_transfer(p, seed):
         if p.get(k) is not None:
             hb[k] = p[k]
     if kind.startswith("tl_rush"):
-        custom = _sample_configs(p["space"], p["custom_rush_points"], p["points_seed"] + 3) if p.get("custom_rush_points") else None
+        custom = None
+        if p.get("custom_rush_points"):
+            custom = _sample_configs(p["space"], p["custom_rush_points"], p["points_seed"] + 3)
+            if p.get("custom_dup"):
+                best = evals["task0"].top_k_hyperparameter_configurations(1, p["mode"], "loss")[0]
+                custom[-1] = dict(best)
         return RUSHScheduler(config_space=space, transfer_learning_evaluations=evals, metric="loss", type=kind[8:],
                              points_to_evaluate=pts, custom_rush_points=custom,
                              num_hyperparameters_per_task=p["num_hp_per_task"], **hb)
@@ -1424,7 +1436,9 @@ def modelfree_spec(p, j):
     the other unusual categoricals."""
     if p["scenario"] == "vt_transfer":
         return _with_seed(dict({"kind": TL_KINDS[j % len(TL_KINDS)], "seed": p["base"] + 307 * j,
-                                "num_hp_per_task": [1, 2, 1, 3][(j // len(TL_KINDS) + j) % 4]},
+                                "num_hp_per_task": [1, 2, 1, 3][(j // len(TL_KINDS) + j) % 4],
+                                "custom_rush_points": [0, 1, 0, 2, 0, 3, 0, 2][(j // len(TL_KINDS) + j) % 8],
+                                "custom_dup": j % 2 == 0},
                                **(p.get("history_overrides") or {})), j)
     if p["scenario"] == "vt_hashmatrix":
         kind = HASH_KINDS[j % len(HASH_KINDS)]
@@ -2028,6 +2042,10 @@ def run_engine_b(spec, o):
         if q["kind"].startswith("tl_rush"):
             nth = q["n_tasks"] * q["num_hp_per_task"]
             o.count("fresh_process_rush_twins_threshold_candidates", nth)
+            nc = q.get("custom_rush_points", 0)
+            o.count(f"fresh_process_rush_twins_custom_rush_points:{nc}")
+            if nc and q.get("custom_dup"):
+                o.count("fresh_process_rush_twins_custom_point_duplicates_source_best")
             if nth >= 2 and any(d_[0] == "choice" and isinstance(d_[1][0], str) for d_ in q["space"].values()) and any(
                     d_[0] in ("uniform", "loguniform", "randint", "lograndint") for d_ in q["space"].values()):
                 o.count("fresh_process_rush_twins_with_2+_candidates_string_and_numeric_hps")
@@ -2059,10 +2077,7 @@ def run_engine_b(spec, o):
         if sc in BATCH_SCEN:  # which history of the batch diverged first
             for e in reversed(ref[2]["events"][: detail.get("index", 0) + 1]):
                 if e.startswith('["history"'):
-                    he = json.loads(e)
-                    hist_kind = ":" + he[2]
-                    if he[1] < len(hist) and hist[he[1]].get("custom_rush_points"):
-                        hist_kind += ":with_custom_rush_points"
+                    hist_kind = ":" + json.loads(e)[2]
                     break
         o.violate("fresh_process_twins_identical" if not sc.startswith("sim_") else "result_tables_identical",
                   f"B:{sc}{hist_kind}:{what}:first={et}:{cause}",
